@@ -140,25 +140,39 @@ package godi
 //@        && (forall i int :: 0 <= i && i < len(pre) ==> p.disposables[i] == pre[i])
 //@   at before call p.singletonKeysMu.Unlock#1 : assert[C10,C14] key_tracked: len(p.singletonKeys) == len(prekeys) + 1 && p.singletonKeys[len(prekeys)] == key
 //
+//@ func closeLate
+//@   mode conc
+//@   interferes
+//@   nopanic
+//@   requires arg: d != nil
+//@   ensures[C10] closes_exactly_once: ncalls("Disposable.Close") == 1 && callarg("Disposable.Close", 0, 0) == d
+//
 //@ func scope.setInstance
 //@   mode conc
+//@   interferes
+//@   nopanic
 //@   safety[C15,C13,C09]
 //@   requires recv: s != nil && descriptor != nil && s.rootProvider != nil
 //@   ghost pre []Disposable
+//@   ghost wasLate bool
 //@   at after call s.disposablesMu.Lock#1 : ghost pre := s.disposables
+//@   at before call s.disposablesMu.Unlock#1 : ghost wasLate := late
 //@   ensures[C01] singleton_delegates: descriptor.Lifetime == Singleton ==> ncalls("provider.setSingleton") == 1
-//@        && callarg("provider.setSingleton", 0, 0) == s.rootProvider && callarg("provider.setSingleton", 0, 1) == key && callarg("provider.setSingleton", 0, 2) == instance
+//@        && callarg("provider.setSingleton", 0, 0) == old(s.rootProvider) && callarg("provider.setSingleton", 0, 1) == key && callarg("provider.setSingleton", 0, 2) == instance
 //@        && ncalls("scope.instancesMu.Lock") == 0 && ncalls("scope.disposablesMu.Lock") == 0
 //@   ensures[C01,C02,C03] only_singletons_delegate: descriptor.Lifetime != Singleton ==> ncalls("provider.setSingleton") == 0
 //@   ensures[C02] scoped_cached_here: descriptor.Lifetime == Scoped ==> ncalls("scope.instancesMu.Lock") == 1 && callarg("scope.instancesMu.Lock", 0, 0) == s
 //@   ensures[C03] transient_not_cached: descriptor.Lifetime != Scoped ==> ncalls("scope.instancesMu.Lock") == 0
-//@   ensures[C10] not_disposable_untracked: !typeis(instance, "Disposable") ==> ncalls("scope.disposablesMu.Lock") == 0
+//@   ensures[C10] not_disposable_untracked: !typeis(instance, "Disposable") ==> ncalls("scope.disposablesMu.Lock") == 0 && ncalls("closeLate") == 0
 //@   ensures[C10] tracked_once: (descriptor.Lifetime == Scoped || descriptor.Lifetime == Transient) && typeis(instance, "Disposable") ==>
 //@        ncalls("scope.disposablesMu.Lock") == 1 && callarg("scope.disposablesMu.Lock", 0, 0) == s
-//@   ensures[C10] other_lifetimes_untracked: descriptor.Lifetime != Scoped && descriptor.Lifetime != Transient ==> ncalls("scope.disposablesMu.Lock") == 0
+//@   ensures[C10] other_lifetimes_untracked: descriptor.Lifetime != Scoped && descriptor.Lifetime != Transient ==> ncalls("scope.disposablesMu.Lock") == 0 && ncalls("closeLate") == 0
+//@   ensures[C10] late_instance_closed_here_exactly_once: ncalls("closeLate") == ite(wasLate, 1, 0) && (wasLate ==> callarg("closeLate", 0, 0) == instance)
 //@   at before call s.instancesMu.Unlock#1 : assert[C02,C13] cached_unless_closed: s.instances != nil ==> (key in s.instances) && s.instances[key] == instance
-//@   at before call s.disposablesMu.Unlock#1 : assert[C10,C11] appended_last: len(s.disposables) == len(pre) + 1 && s.disposables[len(pre)] == instance
+//@   at before call s.disposablesMu.Unlock#1 : assert[C10] appended_only_to_a_list_that_will_be_closed: !late ==> !(isnil(pre) && s.disposed != 0)
+//@   at before call s.disposablesMu.Unlock#1 : assert[C10,C11] appended_last: !late ==> len(s.disposables) == len(pre) + 1 && s.disposables[len(pre)] == instance
 //@        && (forall i int :: 0 <= i && i < len(pre) ==> s.disposables[i] == pre[i])
+//@   at before call s.disposablesMu.Unlock#1 : assert[C10] drained_list_left_alone: late ==> isnil(s.disposables) && isnil(pre) && s.disposed != 0
 //
 // ---------------------------------------------------------------------------------------------
 //@ func provider.Close
@@ -838,7 +852,7 @@ package godi
 //@        && 0 <= j && j < len(sc.allDescriptors[i].Dependencies) ==> depRegistered(sc, sc.allDescriptors[i].Dependencies[j]))
 //@   ensures[C08,C15] missing_dependency_is_reported_classifiably: ncalls("collection.validateDependencies") == 1 && callret("collection.validateDependencies", 0, 0) != nil ==>
 //@        result0 == nil && typeis(result1, "*BuildError") && as(result1, "*BuildError").Cause == callret("collection.validateDependencies", 0, 0) && ncalls("newScopeWithoutInitializers") == 0
-//@   ensures[C08] root_initializers_run_after_singletons: result1 == nil ==> ncalls("scope.runInitializers") == 1 && callarg("scope.runInitializers", 0, 0) == callret("newScopeWithoutInitializers", 0, 0, "*scope")
+//@   ensures[C08,C02] root_initializers_run_after_singletons: result1 == nil ==> ncalls("scope.runInitializers") == 1 && callarg("scope.runInitializers", 0, 0) == callret("newScopeWithoutInitializers", 0, 0, "*scope")
 //@        && callret("scope.runInitializers", 0, 0) == nil && calltime("provider.createAllSingletonsWithContext", 0) < calltime("scope.runInitializers", 0)
 //@   ensures[C10,C15] failed_initializer_phase_cleans_up: ncalls("scope.runInitializers") == 1 && callret("scope.runInitializers", 0, 0) != nil ==>
 //@        result0 == nil && ncalls("provider.Close") == 1 && callarg("provider.Close", 0, 0) == built
